@@ -58,7 +58,7 @@ VARIANTS_THOROUGH = VARIANTS_QUICK + (
     _V("refusing-datatypes+handlers", "reduced", RF_SCHEMA, RF_SECTIONS, H_SCHEMA, H_ITEMS),
     _V("schema-converted+handled,sections-plain", "reduced", DT_SCHEMA, H_SCHEMA),
 )
-STRIDE = {"quick": 4, "thorough": 2}
+STRIDE = {"quick": 4, "thorough": 5}
 
 
 def variants(tier):
@@ -654,14 +654,14 @@ def run(tier):
              "states = (schema variant, seed) pairs, transitions = override lists "
              "loaded.  Non-trivial = list with >= 1 specifier that resolves to an existing section."
              % ("40" if tier == "quick" else "100", "" if tier == "quick" else ", the pairs",
-                "" if tier == "quick" else "; previous seed, then this one", "4th" if tier == "quick" else "2nd"),
+                "" if tier == "quick" else "; previous seed, then this one", "4th" if tier == "quick" else "5th"),
         bounds={"members": len(mem), "max_list": 2 if tier == "quick" else 4,
                 "finishing_variants": {vn: {"adds": sorted(fl), "program": pr} for vn, fl, pr in vs},
                 "reduced_program_seed_stride": STRIDE[tier],
                 "thorough_family": "the quick schema family; 100 seeds per schema, triples over 5 specifiers, "
                                    "quadruples on the first 12 seeds of each schema (full-program variant); 13 finishing "
                                    "variants (each level alone, refusing + handlers), reduced program with pairs on every "
-                                   "2nd seed"},
+                                   "5th seed"},
         assumptions=["edit() in vz/props/c14.py implements the statement's rule on the event tree",
                      "override values restricted to strings the text syntax can express",
                      "'the same outcome' covers both members of the pair loadConfigFile returns (configuration, handler)",
